@@ -675,6 +675,30 @@ func rawClient(cw *c16World, sc *WireScn, ci int, spec WireClient, cl *Client, f
 				o.Vio("C15.undecodable-stream-not-closed", "act=slow", "client %d: after a record that arrived in two parts (silence in between) the server neither answered nor closed the connection for 75 simulated seconds", ci)
 			}
 			cl.Dead = true
+		case "halfclose":
+			// the last-fragment header announces more bytes than ever arrive, then the client half-closes its
+			// side and keeps listening: a record that never became complete is not a call and gets no answer
+			x, b := mk(0, nil)
+			decl := len(b) + 4*(1+r.Int(40))
+			if r.Pct(30) {
+				b = b[:len(b)-4*(1+r.Int(3))] // not even a whole call
+			}
+			hdr := uint32(decl) | 0x80000000
+			wire := append([]byte{byte(hdr >> 24), byte(hdr >> 16), byte(hdr >> 8), byte(hdr)}, b...)
+			cl.Conn.Write(wire)
+			cl.Conn.CloseWrite()
+			simrt.Fault("net.half_close_midrecord")
+			cl.Conn.SetReadDeadline(time.Now().Add(75 * time.Second))
+			rec, err := nfsclient.ReadRecord(cl.Conn, 8<<20)
+			o.Tick()
+			if err == nil {
+				xid := uint32(0)
+				if rep, derr := nfsclient.DecodeReply(rec); derr == nil {
+					xid = rep.XID
+				}
+				o.Vio("C15.truncated-record-answered", "", "client %d: a record whose header announced %d bytes was cut after %d bytes by a half-close; the server answered (xid %d, sent xid %d) as if the record were complete", ci, decl, len(b), xid, x)
+			}
+			cl.Dead = true
 		case "burst":
 			// several calls in one write: each answered once, in order
 			var xs []uint32
@@ -877,6 +901,9 @@ func genC14(r *simrt.Rand, tier string) any {
 				Nth:  1 + r.Int(12),
 				Kind: []string{"eio", "eio", "enospc", "eacces"}[r.Int(4)], Repeat: r.Pct(30)})
 		}
+		if r.Pct(30) {
+			sc.Stalls = append(sc.Stalls, simfs.Fault{Op: "File.WriteAt", Nth: 1 + r.Int(3), Kind: []string{"short", "shortok"}[r.Int(2)], Short: r.Int(3), Repeat: r.Pct(50)})
+		}
 	}
 	return sc
 }
@@ -890,12 +917,12 @@ func genC15(r *simrt.Rand, tier string) any {
 	case 1:
 		sc.Pol.RLGen = true
 	}
-	acts := []string{"call", "getattr", "two", "frag", "multi", "flip", "garbage", "hugefrag", "hugecred", "cut", "overlimit", "cookie", "burst", "slow"}
+	acts := []string{"call", "getattr", "two", "frag", "multi", "flip", "garbage", "hugefrag", "hugecred", "cut", "overlimit", "cookie", "burst", "slow", "halfclose"}
 	nc := 1 + r.Int(3)
 	for c := 0; c < nc; c++ {
 		cl := WireClient{Addr: wireAddrs[1+r.Int(2)]}
 		for i, n := 0, 2+r.Int(6); i < n; i++ {
-			cl.Raw = append(cl.Raw, acts[r.Pick([]int{15, 15, 10, 10, 6, 10, 10, 8, 8, 8, 6, 8, 8, 8})])
+			cl.Raw = append(cl.Raw, acts[r.Pick([]int{15, 15, 10, 10, 6, 10, 10, 8, 8, 8, 6, 8, 8, 8, 6})])
 		}
 		sc.Clients = append(sc.Clients, cl)
 	}
